@@ -191,6 +191,93 @@ static void resend_scenarios(const std::string& which)
 		check_answer(f, "open range whose first stored record is after the start (2, 3 were admin messages)", { 4, 5 }, 2, 0, nb);
 	}
 }
+// C16 / C17: the real Session::send_process with a persister attached: numbering on the wire, what the store and the control record hold afterwards
+static NewOrderSingle *new_order(const char *clid)
+{
+	NewOrderSingle *m = new NewOrderSingle;
+	*m << new TransactTime << new ClOrdID(clid) << new HandlInst('1') << new OrdType('2') << new Side('1') << new Symbol("OC") << new OrderQty(50) << new Price(400.5);
+	return m;
+}
+static std::string wire_field(const std::string& o, const char *tag)
+{
+	std::string k(std::string("\001") + tag + "="); size_t p = o.find(k); if (p == std::string::npos) return std::string("-"); p += k.size(); return o.substr(p, o.find('\001', p) - p);
+}
+static void control_check(Fx& f, const char *scenario)
+{
+	unsigned snd = 0, rcv = 0;
+	f.per->get(snd, rcv);
+	if (snd != f.ss->get_next_send_seq() || rcv != f.ss->expected())
+		REPORT("{\"scenario\":\"%s\",\"control_record\":[%u,%u],\"session_next_send\":%u,\"session_next_receive\":%u}", scenario, snd, rcv, f.ss->get_next_send_seq(), f.ss->expected());
+}
+static void send_scenarios(const std::string& which)
+{
+	if (which == "send_plain" || which == "send")
+	{
+		Fx f; f.logon(1); f.conn->_output.clear();
+		const unsigned n0 = f.ss->get_next_send_seq();
+		for (int i = 0; i < 4; ++i)
+		{
+			if (i == 2) f.ss->send(new Heartbeat); else f.ss->send(new_order("7"));
+			control_check(f, "plain sends: control record after each send");
+		}
+		for (unsigned i = 0; i < f.conn->_output.size(); ++i)
+		{
+			const std::string& o = f.conn->_output[i];
+			if (wire_field(o, "34") != std::to_string(n0 + i)) REPORT("{\"scenario\":\"plain sends\",\"index\":%u,\"wire_34\":\"%s\",\"want\":%u}", i, wire_field(o, "34").c_str(), n0 + i);
+			f8String st; const bool have = f.per->get(n0 + i, st);
+			if (i == 2 ? (have && !st.empty()) : (!have || st != o)) REPORT("{\"scenario\":\"plain sends\",\"index\":%u,\"stored_equals_wire\":false,\"admin\":%d}", i, (int)(i == 2));
+		}
+	}
+	if (which == "send_uncounted" || which == "send")
+	{
+		{ Fx f; f.logon(1); f.ss->send(new_order("7")); f.ss->send(new Heartbeat, true, 0, true);	// no_increment
+		  control_check(f, "a send that does not consume a number (no_increment)"); }
+		{ Fx f; f.logon(1); f.ss->send(new_order("7"));
+		  SequenceReset *sr = new SequenceReset; *sr << new NewSeqNo(f.ss->get_next_send_seq()) << new GapFillFlag(true); f.ss->send(sr, true, 2);	// custom number
+		  control_check(f, "a gap fill sent under a custom number"); }
+	}
+	if (which == "send_custom" || which == "send")
+	{
+		Fx f; f.logon(1); f.ss->send(new_order("7")); f.conn->_output.clear();
+		f.ss->send(new_order("8"), true, 77);
+		const std::string o = f.conn->_output.empty() ? std::string() : f.conn->_output.back();
+		f8String st; const bool have = f.per->get(77, st);
+		if (wire_field(o, "34") != "77" || !have || st != o)
+			REPORT("{\"scenario\":\"application message sent under the custom number 77\",\"wire_34\":\"%s\",\"stored_under_77\":%d,\"stored_equals_wire\":%d}", wire_field(o, "34").c_str(), (int)have, (int)(have && st == o));
+	}
+	if (which == "send_batch" || which == "send")
+	{
+		Fx f; f.logon(1); f.conn->_output.clear();
+		const unsigned n0 = f.ss->get_next_send_seq();
+		std::vector<Message *> msgs { new_order("b1"), new_order("b2"), new_order("b3") };
+		for (size_t i = 0; i < msgs.size(); ++i)	// what FIXWriter::write_batch does in the threaded and coroutine models
+		{
+			msgs[i]->set_end_of_batch(i + 1 == msgs.size());
+			f.ss->send_process(msgs[i]);
+		}
+		std::string wire; for (auto& o : f.conn->_output) wire += o;
+		for (unsigned i = 0; i < 3; ++i)
+		{
+			f8String st; const bool have = f.per->get(n0 + i, st);
+			const std::string clid = "\00111=b" + std::to_string(i + 1) + "\001", num = "\00134=" + std::to_string(n0 + i) + "\001";
+			const bool ok = have && st.find(clid) != std::string::npos && st.find(num) != std::string::npos && wire.find(st) != std::string::npos && st.compare(0, 2, "8=") == 0
+				&& st.find("\00110=") + 8 == st.size();
+			if (!ok) REPORT("{\"scenario\":\"batch of three application messages\",\"index\":%u,\"number\":%u,\"stored\":%d,\"stored_length\":%zu,\"stored_is_exactly_this_message\":false}", i, n0 + i, (int)have, st.size());
+		}
+		control_check(f, "batch of three application messages");
+	}
+	if (which == "send_renumber" || which == "send")
+	{
+		Fx f; f.logon(1);
+		LoginParameters lp; lp._always_seqnum_assign = true; f.ss->set_login_parameters(lp);
+		f.conn->_output.clear();
+		NewOrderSingle *m = new_order("r1");
+		*m->Header() << new msg_seq_num(1) << new poss_dup_flag(true) << new sending_time;	// an application re-sends a message it built earlier
+		f.ss->send(m); f.ss->send(new_order("r2"));
+		if (f.conn->_output.size() == 2 && wire_field(f.conn->_output[0], "43") == "-" && wire_field(f.conn->_output[0], "34") == wire_field(f.conn->_output[1], "34"))
+			REPORT("{\"scenario\":\"renumbering mode: two new messages on the wire\",\"first_34\":\"%s\",\"second_34\":\"%s\"}", wire_field(f.conn->_output[0], "34").c_str(), wire_field(f.conn->_output[1], "34").c_str());
+	}
+}
 // C22: one supervision tick for each combination of idle / silent seconds around the thresholds (H = 30 s, margin 36 s) and both test-request states
 static void heartbeat_ticks()
 {
@@ -220,6 +307,7 @@ int main(int argc, char **argv)
 	if (which == "logon_gap" || which == "all") logon_gap();
 	if (which == "tick" || which == "all") heartbeat_ticks();
 	if (which.rfind("resend", 0) == 0) resend_scenarios(which);
+	if (which.rfind("send", 0) == 0) send_scenarios(which);
 	printf("{\"search_done\":true,\"class\":\"%s\",\"mismatches\":%d}\n", which.c_str(), bad);
 	fflush(stdout);
 	_exit(bad ? 1 : 0);	// skip static destructors: session.cpp is compiled into this program and also lives in libfix8 (duplicate statics)
